@@ -9,6 +9,7 @@ the scenario, so a replay is exact)."""
 import os
 import math
 import random
+import copy
 import traceback
 from datetime import datetime, timedelta
 
@@ -52,6 +53,20 @@ class Sink(object):
     def next_seq(self):
         self.seq += 1
         return self.seq
+
+    # a forked environment (op 'fork') takes its observers along; their sink is replaced by a light one, so the
+    # copy neither drags the whole log (and the other environments of the executor) along nor writes into it
+    @staticmethod
+    def _light(seq, bombs, crash_on):
+        s = Sink()
+        s.seq, s.bombs, s.crash_on = seq, dict(bombs), dict(crash_on)
+        return s
+
+    def __deepcopy__(self, memo):
+        return Sink._light(self.seq, self.bombs, self.crash_on)
+
+    def __reduce__(self):
+        return (Sink._light, (self.seq, self.bombs, self.crash_on))
 
     def event_id(self, event):
         eid = self.idmap.get(id(event))
@@ -111,7 +126,7 @@ FEATURE_EVENT_CLASSES = ["EventNBBO", "EvA", "EventNewDate"]
 
 
 class _RecStateBase(IState):
-    def __init__(self, sink, tag, features=None, nvals=3):
+    def __init__(self, sink=None, tag=None, features=None, nvals=3):
         self._sink = sink
         self._tag = tag
         self._count = 0
@@ -139,13 +154,13 @@ class _RecStateBase(IState):
         return np.array(own)
 
 
-RecState = type("RecState", (_RecStateBase,), _mk_callbacks("state", ALL_EVENT_CLASSES))
+RecState = type("RecState", (_RecStateBase,), dict(_mk_callbacks("state", ALL_EVENT_CLASSES), __module__=__name__))
 
 
 class _RecFeatureBase(Feature):
     """A feature with history: rolling mean of the last k mid prices seen."""
 
-    def __init__(self, sink, tag, k=3, name=None, reads_account=False):
+    def __init__(self, sink=None, tag=None, k=3, name=None, reads_account=False):
         self._sink = sink
         self._tag = tag
         self._k = k
@@ -173,14 +188,14 @@ class _RecFeatureBase(Feature):
         return np.array([sum(self._window) / len(self._window)])
 
 
-RecFeature = type("RecFeature", (_RecFeatureBase,), _mk_callbacks("feature", FEATURE_EVENT_CLASSES))
+RecFeature = type("RecFeature", (_RecFeatureBase,), dict(_mk_callbacks("feature", FEATURE_EVENT_CLASSES), __module__=__name__))
 
 
 class _RecFeatureSparseBase(Feature):
     """A feature that is notified rarely (custom events of one class only) but whose value is read from the
     exchange every time it is parsed: its recorded history must still be filed under the time of each parse."""
 
-    def __init__(self, sink, tag, contract=None, name=None):
+    def __init__(self, sink=None, tag=None, contract=None, name=None):
         self._sink = sink
         self._tag = tag
         self._contract = contract
@@ -197,7 +212,7 @@ class _RecFeatureSparseBase(Feature):
         return np.array([float(self._seen), 0.0 if mid != mid else float(mid)])
 
 
-RecFeatureSparse = type("RecFeatureSparse", (_RecFeatureSparseBase,), _mk_callbacks("feature", ["EvA"]))
+RecFeatureSparse = type("RecFeatureSparse", (_RecFeatureSparseBase,), dict(_mk_callbacks("feature", ["EvA"]), __module__=__name__))
 
 
 class RecFeatureInherited(RecFeature):
@@ -212,7 +227,7 @@ class RecStateInherited(RecState):
 class _RecWindowStateBase(State):
     """The library's windowed State, with recording callbacks added."""
 
-    def __init__(self, sink, tag, n_features, window, stride):
+    def __init__(self, sink=None, tag=None, n_features=1, window=1, stride=None):
         self._sink = sink
         self._tag = tag
         super().__init__(n_features, window, stride, max_=1e9)
@@ -225,7 +240,7 @@ class _RecWindowStateBase(State):
 # only the subscription the library's State has: after *every* delivered event the
 # environment parses the observer, and a window State cannot be parsed before its
 # first observation
-_ws_ns = _mk_callbacks("state", ["EventNewObservation"])
+_ws_ns = dict(_mk_callbacks("state", ["EventNewObservation"]), __module__=__name__)
 RecWindowState = type("RecWindowState", (_RecWindowStateBase,), _ws_ns)
 
 
@@ -376,6 +391,8 @@ class EnvHandle(object):
             TradingEnv(action_space=BoxPortfolio([ETF("ZZPRIOR")]), transmitter=self.transmitter)
         self._make_env()
         self.episodes = []
+        self.clones = []            # forked copies of the running environment (op 'fork'), dropped at the next reset
+        self.clone_first = False
         self.gen_specs = [self.spec_of_generation()]
 
     def _make_env(self):
@@ -549,6 +566,20 @@ class EnvHandle(object):
             out[f.name] = [len(f.history), latest(f.history)]
         return out
 
+    def api_view(self, env, obs, reward, done, exc):
+        """What a caller can see of an environment right after a step (used to compare a forked copy with the original)."""
+        br = env.broker
+        hq = {getattr(c, "symbol", str(c)): float(q) for c, q in br.holdings_quantity.items() if q != 0 or isinstance(c, Cash)}
+        try:
+            nlv = float(br.net_liquidation_value(raise_if_broke=False))
+        except Exception as e:
+            nlv = "ERR:" + core.exc_name(e)
+        tr = br.track_record
+        return canon({"obs": canon(obs) if not isinstance(obs, IState) else "state",
+                      "reward": float(reward) if reward is not None else None, "done": bool(done) if done is not None else None,
+                      "exc": exc, "hold": hq, "nlv": nlv, "n_rec": len(tr), "now": env.now(),
+                      "last": rebal_record(tr[len(tr) - 1]) if len(tr) else None})
+
     def nlv_default(self):
         """Valuation with the raising default: ('value', x) or ('raised', type)."""
         try:
@@ -556,8 +587,9 @@ class EnvHandle(object):
         except Exception as e:
             return ["raised", core.exc_name(e)]
 
-    def resolve_action(self, a):
+    def resolve_action(self, a, env=None):
         n = len(self.space_contracts)
+        env = env or self.env
         if isinstance(a, dict):
             if "bad" in a:
                 kind = a["bad"]
@@ -583,7 +615,7 @@ class EnvHandle(object):
                     return list(v)
                 if a["as"] == "template" and self.spec["space"]["type"] == "box":
                     # the caller starts from the space's flat template and fills it in place
-                    w = self.env.action_space.null_action()
+                    w = env.action_space.null_action()
                     w[...] = np.array(v, dtype=np.float64)
                     return w
                 if a["as"] == "f32":
@@ -668,6 +700,7 @@ class EpiSim(object):
         bound reset, reached through a wrapper installed on the instance); reraise: hand the exception
         back to the caller after recording it."""
         h = self.handles[op.get("env", 0)]
+        h.clones = []
         if op.get("np_seed") is not None:
             np.random.seed(op["np_seed"] % (2 ** 32))
             random.seed(op["np_seed"])
@@ -719,6 +752,9 @@ class EpiSim(object):
         self.sink.records.append(rec)
         self.stats["steps"] += 1
         raised = None
+        clone_views = []
+        if h.clones and h.clone_first:
+            clone_views = [self.clone_step(h, c, op["action"]) for c in h.clones]
         try:
             obs, reward, done, info = (call or h.env.step)(action)
         except Exception as e:
@@ -737,6 +773,11 @@ class EpiSim(object):
                     "end_seq": self.sink.next_seq()})
         if isinstance(info, dict) and "_rebalancing" in info:
             rec["info_rebalancing_time"] = info["_rebalancing"].time
+        if h.clones:
+            if not h.clone_first:
+                clone_views = [self.clone_step(h, c, op["action"]) for c in h.clones]
+            rec["clones"] = clone_views
+            rec["self_view"] = h.api_view(h.env, obs, reward, done, rec["exc"])
         if ep is not None:
             ep["steps"].append(rec)
             if rec.get("done") or rec.get("exc") == "EndOfEpisodeError":
@@ -744,6 +785,47 @@ class EpiSim(object):
         if raised is not None and reraise:
             raise raised
         return obs, reward, done, info
+
+    def clone_step(self, h, clone, action_spec):
+        """The same step on a forked copy of the environment; returns what a caller sees of the copy afterwards."""
+        obs = reward = done = None
+        exc = None
+        try:
+            obs, reward, done, _info = clone.step(h.resolve_action(action_spec, env=clone))
+        except Exception as e:
+            exc = core.exc_name(e)
+        return h.api_view(clone, obs, reward, done, exc)
+
+    def do_fork(self, op):
+        """Checkpoint of a running episode: the environment object is copied (copy.deepcopy, or a pickle round trip)
+        and from now on every step of the script is made on both objects - the copy first or second.  The harness's
+        own instance-level wrapper of Broker.rebalance is taken off for the copy and put back afterwards."""
+        import pickle
+        h = self.handles[op.get("env", 0)]
+        if h.env.broker is None or not h.episodes or h.episodes[-1]["failed"] or h.episodes[-1].get("gen", 0) != h.gen:
+            return
+        broker = h.env.broker
+        wrapped = "rebalance" in vars(broker)
+        if wrapped:
+            del broker.rebalance
+        rec = {"seq": self.sink.next_seq(), "kind": "fork", "env": h.tag, "how": op.get("how", "deepcopy"), "exc": None}
+        saved = AbstractContract.now
+        try:
+            if op.get("how") == "pickle":
+                clone = pickle.loads(pickle.dumps(h.env))
+            else:
+                clone = copy.deepcopy(h.env)
+            h.clones.append(clone)
+            h.clone_first = bool(op.get("clone_first"))
+            self.fault("environment_forked_by_" + op.get("how", "deepcopy"))
+        except Exception as e:
+            rec["exc"] = core.exc_name(e)
+            rec["msg"] = str(e)[:200]
+        finally:
+            AbstractContract.now = saved
+            if wrapped:
+                self.wrap_rebalance(h)
+        self.sink.records.append(rec)
 
     def do_backtest(self, reset_op, step_ops):
         """The same reset + step calls, made by the library's own episode driver TradingEnv.backtest with a
@@ -842,6 +924,8 @@ class EpiSim(object):
                 AbstractContract.now = core.parse_t(op["t"])
                 self.fault("foreign_clock_write")
                 self.sink.records.append({"seq": self.sink.next_seq(), "kind": "clock", "t": core.parse_t(op["t"])})
+            elif name == "fork":
+                self.do_fork(op)
             elif name == "peek":
                 # a monitoring caller reads the public accessors of the running episode between two steps: the track
                 # record's series and tables, weights, the exchange's repr.  Reading is not an operation: nothing may change
